@@ -19,7 +19,7 @@ from plain import gen_ops
 
 RULE = ("random case (network incl. cores with complex attractors and networks with declared variable order, history of 1-5 "
         "operations incl. build/skip, seeds of all expanded nodes, one control query with strategy internal/all), executed in "
-        "4 fresh interpreters with different hash seeds, one of them after 3 unrelated diagrams; non-trivial = the case has a "
+        "6 fresh interpreters (PYTHONHASHSEED 0, 1, 2, 4, random, and 3 after three unrelated diagrams with complex attractors); cases are run in batches of 8 per interpreter; non-trivial = the case has a "
         "complex attractor with at least two candidates, or a step with two driver sets, or at least 4 nodes; distinct by case hash")
 ASSUMPTIONS = ["E8: CPython random.Random(123), dict insertion order, networkx adjacency order", "clingo enumeration order is a function of the program text"]
 CASE_TIMEOUT = {"quick": 120, "thorough": 300}
@@ -27,11 +27,21 @@ WORKER = os.path.join(common.VERIF, "harness", "c19_worker.py")
 
 
 def budget(tier):
-    return 250 if tier == "quick" else 2500
+    return 150 if tier == "quick" else 1500
 
 
 def gen_case(rng, tier, k):
+    return {"batch": [gen_one(rng, tier) for _ in range(8)]}
+
+
+def gen_one(rng, tier):
     nmax = 6 if tier == "quick" else 7
+    if rng.random() < 0.15:
+        # XOR-like triggers: a motif with two minimal driver sets over the same variables
+        extra = rng.choice(["", "\nZ, Z & C", "\nZ, !P | Z"])
+        gate = rng.choice(["(P & !Q) | (!P & Q)", "(P & Q) | (!P & !Q)"])
+        return {"bnet": f"P, Q\nQ, P\nC, E | {gate}\nE, C" + extra, "ops": [],
+                "target": [[0, 1], [1, 1]] if rng.random() < 0.7 else [[0, 1]], "strategy": "all"}
     bnet = common.g_compose(rng, extra_max=max(0, nmax - 4)) if rng.random() < 0.45 else common.g_mixed(rng, nmax=nmax, p_core=0.0)
     ops = []
     for _ in range(rng.randint(1, 5)):
@@ -50,27 +60,38 @@ def gen_case(rng, tier, k):
 def run_in(case, hashseed, warmup=0):
     env = dict(os.environ, PYTHONHASHSEED=str(hashseed), BALM_REPO=common.REPO)
     c = dict(case, warmup=warmup)
-    p = subprocess.run([sys.executable, WORKER], input=json.dumps(c), capture_output=True, text=True, env=env, timeout=100)
+    p = subprocess.run([sys.executable, WORKER], input=json.dumps(c), capture_output=True, text=True, env=env, timeout=400)
     if p.returncode != 0:
         raise RuntimeError("worker failed: " + p.stderr[-300:])
     return json.loads(p.stdout.strip().split("\n")[-1])
 
 
 def run_case(case):
-    runs = [("hashseed=0", run_in(case, 0)), ("hashseed=1", run_in(case, 1)), ("hashseed=random", run_in(case, "random")),
+    if "batch" not in case:
+        case = {"batch": [case]}
+    runs = [("hashseed=0", run_in(case, 0)), ("hashseed=1", run_in(case, 1)), ("hashseed=2", run_in(case, 2)),
+            ("hashseed=4", run_in(case, 4)), ("hashseed=random", run_in(case, "random")),
             ("hashseed=3 after 3 unrelated diagrams", run_in(case, 3, warmup=3))]
-    base = runs[0][1]
     fails = []
-    for name, o in runs[1:]:
-        for key in ("rets", "dump", "edges_order", "seeds", "control", "summary"):
-            if o[key] != base[key]:
-                fails.append({"kind": "not-reproducible", "sig": {"what": key}, "detail":
+    nontriv = False
+    for j, sub in enumerate(case["batch"]):
+        base = runs[0][1][j]
+        if base.get("timeout"):
+            continue
+        for name, outs in runs[1:]:
+            o = outs[j]
+            if o.get("timeout"):
+                continue
+            bad = [key for key in ("rets", "dump", "edges_order", "seeds", "control", "summary") if o[key] != base[key]]
+            if bad:
+                key = bad[0]
+                fails.append({"kind": "not-reproducible", "sig": {"what": key}, "case": sub, "detail":
                               f"{key} differs between hashseed=0 and {name}: {json.dumps(base[key])[:200]} / {json.dumps(o[key])[:200]}"})
                 break
-    nn = len(base["dump"].split(" | ")[0].split())
-    multi = isinstance(base["control"], list) and any(len(c) >= 2 for iv in base["control"] for c in iv[1])
-    return {"fails": fails, "diffs": [], "tags": ["strategy:" + case["strategy"]], "nontrivial": nn >= 4 or multi,
-            "sig": common.case_hash(case)}
+        nn = len(base["dump"].split(" | ")[0].split())
+        multi = isinstance(base["control"], list) and any(len(c) >= 2 for iv in base["control"] for c in iv[1])
+        nontriv = nontriv or nn >= 4 or multi
+    return {"fails": fails, "diffs": [], "tags": ["batch"], "nontrivial": nontriv, "sig": common.case_hash(case)}
 
 
 def corpus():
